@@ -34,7 +34,9 @@ FEATURES = ('comment', 'comment_bs', 'continuation', 'triple_under', 'raw_bs_nl'
 LAMBDAS = ('single', 'two_same_sig', 'two_diff_sig', 'semicolon_diff', 'semicolon_same', 'nested_outer', 'nested_inner', 'spanning',
            'default_arg', 'call_arg', 'in_function', 'wraps_wrapper', 'wraps_method')
 REDEFS = ('same_size_same_mtime', 'same_size_newer', 'longer', 'shorter', 'moved_down')
-HANDOVER = ('nested_def_defaults', 'nested_lambda_defaults', 'nested_kwonly_defaults', 'own_defaults_only', 'two_levels')
+HANDOVER = ('nested_def_defaults', 'nested_lambda_defaults', 'nested_kwonly_defaults', 'own_defaults_only', 'two_levels',
+            # two lambdas starting on one line, converted one after the other by the same transpiler
+            'two_lambdas_one_line', 'two_lambdas_one_line_reversed')
 _S = {'tier': 'quick'}
 
 
@@ -377,9 +379,51 @@ def handover_source(item, uid):
   return '\n'.join(L) + '\n\n\nTARGET = target\n'
 
 
+def check_lambda_pair(item, uid):
+  from malt.pyct import transpiler
+  import inspect
+  src = 'PAIR = (lambda x: x + %d, lambda y, z=1: (y * 2 + %d, z))\nTARGET = PAIR[0]\n' % (uid, uid)
+  name = 'c15pair_%d' % uid
+  mod, path = load_module(src, name)
+  viol = []
+
+  class Ident(transpiler.PyToPy):
+    def get_caching_key(self, ctx):
+      return 0
+
+    def get_extra_locals(self):
+      return {}
+
+    def transform_ast(self, node, ctx):
+      return node
+  tr = Ident()
+  order = (0, 1) if item[2] == 'two_lambdas_one_line' else (1, 0)
+  try:
+    for k in order:
+      lam = mod.PAIR[k]
+      try:
+        new_f, _, _ = tr.transform(lam, None)
+      except Exception as e:  # pylint:disable=broad-except
+        if type(e).__name__ == 'UnsupportedLanguageElementError':
+          continue
+        viol.append(('handover-error', 'identity transpiler raised %s for lambda %d: %s' % (type(e).__name__, k, str(e).split('\n')[0][:120])))
+        continue
+      if str(inspect.signature(new_f)) != str(inspect.signature(lam)):
+        viol.append(('different-lambda', 'lambda %d of the line converted after the other one: signature %s, the original has %s' % (
+            k, inspect.signature(new_f), inspect.signature(lam))))
+      elif new_f(5) != lam(5):
+        viol.append(('different-lambda', 'lambda %d of the line converted after the other one returns %r, the original %r' % (k, new_f(5), lam(5))))
+  finally:
+    unload(name, path)
+    util.purge_generated()
+  return src, viol, 'ok'
+
+
 def check_handover(item, uid):
   from malt.pyct import transpiler
   import copy
+  if item[2].startswith('two_lambdas'):
+    return check_lambda_pair(item, uid)
   src = handover_source(item, uid)
   name = 'c15hand_%d' % uid
   mod, path = load_module(src, name)
